@@ -49,7 +49,7 @@ type progGen struct {
 
 func newProgGen(r *kernel.RNG) *progGen {
 	g := &progGen{r: r, maxD: r.Range(2, 5)}
-	g.w = make([]int, 36)
+	g.w = make([]int, 37)
 	for i := range g.w {
 		g.w[i] = r.Range(0, 4)
 	}
@@ -113,7 +113,7 @@ func (g *progGen) e(d int) string {
 	if d >= g.maxD {
 		return g.atom()
 	}
-	w := append([]int{}, g.w[:32]...)
+	w := append([]int{}, g.w[:33]...)
 	if len(g.fns) == 0 {
 		w[8], w[10], w[11], w[13] = 0, 0, 0, 0
 	}
@@ -233,6 +233,11 @@ func (g *progGen) e(d int) string {
 		return fmt.Sprintf("(apply + [%s %s])", g.e(d+1), g.e(d+1))
 	case 30:
 		return fmt.Sprintf("(len (append [1] %s))", g.e(d+1))
+	case 32:
+		// the host calls a script function back through the public Apply API
+		n := g.r.Pick(localNames)
+		body := g.withLocal(n, func() string { return g.e(d + 1) })
+		return fmt.Sprintf("(hc (fn [%s] %s) %s)", n, body, g.e(d+1))
 	case 31:
 		n := g.r.Pick(localNames)
 		return fmt.Sprintf("(let [%s (hash a: 1)] (hset %s b: %s) (hget %s b:))", n, n, g.e(d+1), n)
